@@ -151,8 +151,8 @@ def c19_table(pe: bool, pc: bool, pu: bool, pl: bool, e0: int, e1: int, c0: int,
 
 def c19_saveto(kind: int, n: int, has_entities: bool, s0: int, s1: int, s2: int) -> bool:
     """
-    pre: 33 <= s0 <= 126 and s0 != 36 and 33 <= s1 <= 126 and s1 != 36 and 33 <= s2 <= 126 and s2 != 36
-    post: _ == True
+    vpre: 33 <= s0 <= 126 and s0 != 36 and 33 <= s1 <= 126 and s1 != 36 and 33 <= s2 <= 126 and s2 != 36
+    vpost: _ == True
     """
     from spec.xmlnames import is_ncname
 
@@ -239,8 +239,8 @@ specialise(
 
 def c19_dataset(n: int, d0: int, d1: int, d2: int) -> bool:
     """
-    pre: 33 <= d0 <= 126 and d0 != 36 and 33 <= d1 <= 126 and d1 != 36 and 33 <= d2 <= 126 and d2 != 36
-    post: _ == True
+    vpre: 33 <= d0 <= 126 and d0 != 36 and 33 <= d1 <= 126 and d1 != 36 and 33 <= d2 <= 126 and d2 != 36
+    vpost: _ == True
     """
     D = S(*((d0, d1, d2)[:n]))
     wb = {"survey": [{"type": "text", "name": "q1", "label": "L1"}], "entities": [{"dataset": D, "label": "a"}]}
